@@ -126,6 +126,14 @@ pub fn seed(name: &str) -> World {
             let l2 = desc.create_sub_element(ElementName::L2).unwrap();
             l2.set_attribute(AttributeName::L, EnumItem::En).unwrap();
             l2.insert_character_content_item("text", 0).unwrap();
+            // sub-elements inside mixed content (held as handles since the seed): set_character_data on the L-2 replaces them
+            let tt = l2.create_sub_element(ElementName::Tt).unwrap();
+            tt.set_attribute(AttributeName::Type, "SGMLTAG").unwrap();
+            tt.set_character_data("t").unwrap();
+            let xref = l2.create_sub_element(ElementName::Xref).unwrap();
+            let rr = xref.create_sub_element(ElementName::ReferrableRef).unwrap();
+            rr.set_attribute(AttributeName::Dest, EnumItem::CanCluster).unwrap();
+            rr.set_character_data("/a/a1/c").unwrap();
             a.set_comment(Some("cmt".into()));
         }
         "twofile" => {
@@ -468,6 +476,11 @@ pub fn ops_for(w: &World, profile: Profile) -> Vec<Op> {
                 }
                 ops.push(Op::RemoveAttr(i, a));
             }
+        }
+        if (all || tree || refs) && e.element_name() == ElementName::L2 {
+            // mixed content: the text replaces everything, sub-elements included
+            ops.push(Op::SetCdata(i, "x".into()));
+            ops.push(Op::RemoveCdata(i));
         }
         if all {
             if e.element_name() == ElementName::Category || e.element_name() == ElementName::Elements {
